@@ -13,7 +13,7 @@ import (
 func TestCheck(t *testing.T) {
 	r := vlib.New(t, "C06")
 	defer r.Finish()
-	r.Rule("scenarios = 2-3 scripted stores (<=2 frames each; faults: Series() error, Recv error after k frames, hanging Recv cancelled by the 1s frame timeout on the virtual clock) x {WARN, ABORT} x {lazy buf 1, eager} x every schedule of receiver goroutines, timers and consumer within the deviation bound; " +
+	r.Rule("scenarios = 2-3 scripted stores (<=2 frames each; faults: Series() error, Recv error after k frames, hanging Recv cancelled by the 1s frame timeout on the virtual clock; error values plain / bare context error, and in two scenarios gRPC status errors as a real gRPC client stream returns) x {WARN, ABORT} x {lazy buf 1, eager} x every schedule of receiver goroutines, timers and consumer within the deviation bound; " +
 		"distinct_nontrivial = distinct (scenario, error?, failed stores, warnings, response) observations")
 	type sb struct {
 		c Case
@@ -36,6 +36,8 @@ func TestCheck(t *testing.T) {
 	hang := func(i, at int) StoreSpec {
 		return StoreSpec{E: []Entry{{L: i % 3, C: u(i, 0)}}[:at], Fault: "hang", At: at}
 	}
+	// the same store reached through a real gRPC client: cancellation and failures arrive as gRPC status errors
+	grpcKind := func(sp StoreSpec, kind string) StoreSpec { sp.Kind = kind; return sp }
 	ps := []sb{
 		{Case{Stores: []StoreSpec{ok2(0), recvFail(1, 1)}, Lazy: true, Buf: 1}, 2},
 		{Case{Stores: []StoreSpec{ok2(0), recvFail(1, 0)}, Lazy: true, Buf: 1, Abort: true}, 2},
@@ -44,6 +46,10 @@ func TestCheck(t *testing.T) {
 		// a healthy store sending a batch frame larger than the free lazy buffer, next to a store that hangs:
 		// the healthy store's receiver waits for buffer slots while the reader is stalled
 		{Case{Stores: []StoreSpec{batch3(0), hang(1, 0)}, Lazy: true, Buf: 1, Timeout: true}, 2},
+		// error KIND dimension: the failing store is a gRPC client (its errors are status errors, the frame
+		// timeout surfaces as code Canceled); the healthy store too, so an early cancellation of it is a status error
+		{Case{Stores: []StoreSpec{grpcKind(ok2(0), "grpc"), grpcKind(hang(1, 1), "grpc")}, Lazy: true, Buf: 1, Timeout: true}, 1},
+		{Case{Stores: []StoreSpec{ok2(0), grpcKind(recvFail(1, 0), "grpc-canceled")}, Lazy: false, Abort: true}, 2},
 	}
 	if r.Thorough() {
 		ps = append(ps,
